@@ -272,9 +272,10 @@ impl ListenerConnection {
 //@@ qmark
 //@@ ret Result<(), ConnectionInnerError>
 //@@ subst `mpsc::channel(DEFAULT_OUTGOING_BUFFER_SIZE)` => `mpsc_channel(DEFAULT_OUTGOING_BUFFER_SIZE)` rule=R9
-//@@ subst `.map_err(|_v0| <connection::Connection as endpoint::Connection>::Error::NotImplemented(None))` => `.map_err(|_v0: AllocSessionError| -> (o: ConnectionInnerError) { ConnectionInnerError::NotImplemented(None) })` rule=R18
-//@@ subst `.map_err(|_v1| <connection::Connection as endpoint::Connection>::Error::NotImplemented(None))` => `.map_err(|_v1: ChanSendError| -> (o: ConnectionInnerError) { ConnectionInnerError::NotImplemented(None) })` rule=R18
-//@@ subst `.expect("relay was just allocated")` => `.unwrap()` rule=R12
+//@@ subst `.map_err(|_v0| <connection::Connection as endpoint::Connection>::Error::NotImplemented(None))` => `.map_err(|_v0| -> (o: ConnectionInnerError) { ConnectionInnerError::NotImplemented(None) })` rule=optional-R18
+//@@ subst `.map_err(|_v1| <connection::Connection as endpoint::Connection>::Error::NotImplemented(None))` => `.map_err(|_v1| -> (o: ConnectionInnerError) { ConnectionInnerError::NotImplemented(None) })` rule=optional-R18
+//@@ subst `std::sync::Arc::new(incoming_tx)` => `incoming_tx` rule=optional-R8
+//@@ subst `.expect("relay was just allocated")` => `.unwrap()` rule=optional-R12
 //@@ spec
     ensures
         final(self).connection.local_state == old(self).connection.local_state,
